@@ -1,0 +1,21 @@
+//go:build verif
+
+package remote
+
+import "github.com/foxcpp/maddy/framework/module"
+
+// Export shim for the verification harness (/verif, property C05).
+// Add-only, compiled only with the build tag "verif".
+
+// VerifRemoteMTASTSFuture returns the future that the delivery object p (of
+// mx_auth.mtasts) currently holds for its policy lookup, nil if p is not a
+// MTA-STS delivery object or no lookup was started. Like
+// VerifRemoteDANEFuture it lets a harness observe, and so decide without
+// sleeping, the order in which concurrent lookups complete.
+func VerifRemoteMTASTSFuture(p module.DeliveryMXAuthPolicy) VerifRemoteFuture {
+	d, ok := p.(*mtastsDelivery)
+	if !ok || d.policyFut == nil {
+		return nil
+	}
+	return d.policyFut
+}
